@@ -1177,8 +1177,7 @@ where
 
 /// Decode `T` from `bytes` starting at `pos`.
 pub fn decode_as<T: for<'b> Decode<'b, ()> + ToModel>(bytes: &[u8], pos: usize) -> DecOut {
-    let mut d = Decoder::new(bytes);
-    d.set_position(pos);
+    let mut d = crate::ops::new_dec(bytes, pos);
     let r = d.decode::<T>();
     DecOut { res: r.map(|v| v.to_model()).map_err(|e| classify(&e)), pos: d.position(), borrowed_inside: None }
 }
@@ -1192,29 +1191,25 @@ fn inside(buf: &[u8], p: *const u8, len: usize) -> bool {
 }
 
 pub fn decode_str_ref(bytes: &[u8], pos: usize) -> DecOut {
-    let mut d = Decoder::new(bytes);
-    d.set_position(pos);
+    let mut d = crate::ops::new_dec(bytes, pos);
     let r = d.decode::<&str>();
     let inside_ = r.as_ref().ok().map(|s| inside(bytes, s.as_ptr(), s.len()));
     DecOut { res: r.map(|v| v.to_model()).map_err(|e| classify(&e)), pos: d.position(), borrowed_inside: inside_ }
 }
 pub fn decode_byteslice_ref(bytes: &[u8], pos: usize) -> DecOut {
-    let mut d = Decoder::new(bytes);
-    d.set_position(pos);
+    let mut d = crate::ops::new_dec(bytes, pos);
     let r = d.decode::<&ByteSlice>();
     let inside_ = r.as_ref().ok().map(|s| inside(bytes, s.as_ptr(), s.len()));
     DecOut { res: r.map(|v| v.to_model()).map_err(|e| classify(&e)), pos: d.position(), borrowed_inside: inside_ }
 }
 pub fn decode_cstr_ref(bytes: &[u8], pos: usize) -> DecOut {
-    let mut d = Decoder::new(bytes);
-    d.set_position(pos);
+    let mut d = crate::ops::new_dec(bytes, pos);
     let r = d.decode::<&std::ffi::CStr>();
     let inside_ = r.as_ref().ok().map(|s| inside(bytes, s.as_ptr() as *const u8, s.to_bytes_with_nul().len()));
     DecOut { res: r.map(|v| v.to_model()).map_err(|e| classify(&e)), pos: d.position(), borrowed_inside: inside_ }
 }
 pub fn decode_path_ref(bytes: &[u8], pos: usize) -> DecOut {
-    let mut d = Decoder::new(bytes);
-    d.set_position(pos);
+    let mut d = crate::ops::new_dec(bytes, pos);
     let r = d.decode::<&std::path::Path>();
     let inside_ = r.as_ref().ok().map(|s| {
         let b = s.as_os_str().as_encoded_bytes();
@@ -1432,22 +1427,19 @@ impl<T: BytesLike> Ty for WB<T> {
 }
 
 pub fn decode_wb_slice_ref(bytes: &[u8], pos: usize) -> DecOut {
-    let mut d = Decoder::new(bytes);
-    d.set_position(pos);
+    let mut d = crate::ops::new_dec(bytes, pos);
     let r = d.decode::<WB<&[u8]>>();
     let inside_ = r.as_ref().ok().map(|s| inside(bytes, s.0.as_ptr(), s.0.len()));
     DecOut { res: r.map(|v| Item::bytes(v.0)).map_err(|e| classify(&e)), pos: d.position(), borrowed_inside: inside_ }
 }
 pub fn decode_wb_opt_slice_ref(bytes: &[u8], pos: usize) -> DecOut {
-    let mut d = Decoder::new(bytes);
-    d.set_position(pos);
+    let mut d = crate::ops::new_dec(bytes, pos);
     let r = d.decode::<WB<Option<&[u8]>>>();
     let inside_ = r.as_ref().ok().map(|s| s.0.map(|s| inside(bytes, s.as_ptr(), s.len())).unwrap_or(true));
     DecOut { res: r.map(|v| v.0.map(Item::bytes).unwrap_or(NULL)).map_err(|e| classify(&e)), pos: d.position(), borrowed_inside: inside_ }
 }
 pub fn decode_wb_byteslice_ref(bytes: &[u8], pos: usize) -> DecOut {
-    let mut d = Decoder::new(bytes);
-    d.set_position(pos);
+    let mut d = crate::ops::new_dec(bytes, pos);
     let r = d.decode::<WB<&ByteSlice>>();
     let inside_ = r.as_ref().ok().map(|s| inside(bytes, s.0.as_ptr(), s.0.len()));
     DecOut { res: r.map(|v| Item::bytes(v.0)).map_err(|e| classify(&e)), pos: d.position(), borrowed_inside: inside_ }
